@@ -158,10 +158,14 @@ impl Check for C09 {
         [(40u16, 20_000u32), (400, 100_000), (1500, 150_000), (3000, 440_000)]
             .iter()
             .map(|(consts, points)| Case { script: Script { seed: crate::untrusted::Seed::ConstHeavy { consts: *consts, points: *points }, muts: vec![], reseal: true } })
+            // long prototypes in front of millions of packets without data: the work per skipped packet must not grow with
+            // the prototype (the time of one next() call quadratic in the file size; decided by the watchdog, with a margin
+            // of two orders of magnitude between a linear and a quadratic reader)
+            .chain([(2_000u32, 100_000u32), (20_000, 5_000_000)].iter().map(|(records, packets)| Case { script: Script { seed: crate::untrusted::Seed::TinyPackets { records: *records, packets: *packets }, muts: vec![], reseal: true } }))
             .collect()
     }
     fn describe_fixed(_t: Tier) -> Option<String> {
-        Some("4 hand-built conforming files: a 1-bit record followed by 40 .. 3000 constant records, one data packet with 20 000 .. 440 000 points".into())
+        Some("4 hand-built conforming files: a 1-bit record followed by 40 .. 3000 constant records, one data packet with 20 000 .. 440 000 points; 2 hand-built files with 2 000 / 20 000 records and 100 000 / 5 000 000 minimum-size ignored packets".into())
     }
     fn gen(s: &mut Src, _t: Tier) -> Case {
         let mut script = gen_script(s);
